@@ -290,6 +290,64 @@ def law_ties(ch):
     ch.mark_nontrivial(max_bond % len(charges) != 0)
 
 
+def law_exact_boundary(ch):
+    """spectra of exact powers of two and a cutoff that equals a partial sum
+    bit for bit: the documented rules are strict ('trim s.t. sum < cutoff',
+    'trim values below cutoff'), which is decidable here without a band"""
+    import symmray as sr
+
+    symm = ch.choice(["Z2", "U1", "Z4"], "symm")
+    ferm = symm != "Z4" and ch.boolean("ferm")
+    ncharge = ch.integer(1, {"Z2": 2, "U1": 3, "Z4": 3}[symm], "ncharge")
+    charges = list(range(ncharge))
+    sizes = {c: ch.integer(1, 3, f"d{c}") for c in charges}
+    exps = {c: [ch.integer(-6, 6, f"e{c}.{k}") for k in range(sizes[c])]
+            for c in charges}
+    cls = gen.array_class(symm, ferm, symm == "Z4")
+    ix = sr.BlockIndex(dict(sizes), dual=False)
+    kw = {"oddpos": 3} if ferm else {}
+    if symm == "Z4":
+        kw["symmetry"] = "Z4"
+    x = cls([ix, ix.conj()], charge=0, blocks={
+        (c, c): np.diag([2.0 ** e for e in exps[c]]) for c in charges}, **kw)
+    _, sfull, _ = must(sr.linalg.svd, x, what="svd")
+    full = spectrum(sfull)
+    allv = np.sort(np.concatenate(list(full.values())))
+    want = np.sort(np.array([2.0 ** e for c in charges for e in exps[c]]))
+    if not np.array_equal(allv, want):
+        return  # LAPACK did not return the exact values: not decidable
+    N = len(allv)
+    mode = ch.choice([1, 3, 5, 4, 6], "mode")
+    t = ch.integer(1, N, "t")
+    if mode == 1:
+        cutoff = float(allv[t - 1])      # equals the t-th smallest value
+        keep = int(np.sum(allv >= cutoff))   # values *below* are trimmed
+    elif mode in (3, 5):
+        p = 2 if mode == 3 else 1
+        cum = np.cumsum(allv ** p)
+        cutoff = float(cum[t - 1])       # weight of the t smallest, exactly
+        keep = N - int(np.sum(cum < cutoff))
+    else:
+        cutoff = 1.0                     # relative: the whole weight
+        p = 2 if mode == 4 else 1
+        cum = np.cumsum(allv ** p)
+        keep = N - int(np.sum(cum < cum[-1] * cutoff))
+    U, s, VH = run_truncated(x, "sr", cutoff=cutoff, cutoff_mode=mode,
+                             max_bond=-1, absorb=None)
+    nk = int(sum(np.size(b) for b in s.blocks.values()))
+    # ties with the smallest kept value may be kept as well
+    desc = allv[::-1]
+    hi = keep
+    if 1 <= keep < N:
+        hi += int(np.sum(desc[keep:] == desc[keep - 1]))
+    require(keep <= nk <= hi, "exact-boundary:count",
+            lambda: f"{symm} spectrum {allv.tolist()} mode={mode} "
+                    f"cutoff={cutoff!r}: kept {nk}, the strict rule keeps "
+                    f"{keep}" + (f"..{hi}" if hi != keep else ""))
+    ch.label(f"mode={mode}")
+    ch.mark_nontrivial(0 < keep < N or mode in (4, 6))
+
+
 LAWS = [
     Law("truncate", law_truncate, quick=2400, thorough=36000,
         doc="counting predicates, error == discarded weight, monotonicity, "
@@ -297,4 +355,8 @@ LAWS = [
     Law("ties", law_ties, quick=400, thorough=4000,
         doc="identical blocks in several charges: exact ties at the bond "
             "limit's threshold"),
+    Law("exact_boundary", law_exact_boundary, quick=800, thorough=10000,
+        doc="exactly representable spectra (powers of two) with a cutoff "
+            "equal to a value / partial sum / the whole weight: strict "
+            "inequality of the documented rules"),
 ]
